@@ -195,8 +195,8 @@ def run(ctx):
     cases = []
     seeds = (0, 7) if quick else (0, 1, 2, 3, 7, 11, 99, 1234, 4242, 90001)  # the model identifies streams by unary naturals: keep seeds small
     for seed in seeds:
-        for N, moves, cap in ((6, ["sh", "sh", "sh"], None), (8, ["sh", "sh", "wf"], 2.5)) if quick else \
-                ((6, ["sh", "sh", "sh"], None), (12, ["sh", "sh", "wf"], 2.5), (12, ["sh", "sh", "wf", "wf"], 3.25), (20, ["sh", "sh"], None)):
+        for N, moves, cap in ((6, ["sh", "sh", "sh"], None), (8, ["sh", "wf", "sh"], 1.75), (10, ["sh", "wf", "wf", "sh"], 2.75)) if quick else \
+                ((6, ["sh", "sh", "sh"], None), (12, ["sh", "wf", "sh"], 1.75), (12, ["sh", "sh", "wf", "sh"], 2.75), (12, ["sh", "sh", "wf", "wf"], 3.25), (20, ["sh", "sh"], None)):
             n_intf = len(moves)
             for k in range(1, N):
                 cases.append((seed, N, moves, cap, (k,), 1, n_intf))
@@ -218,9 +218,9 @@ def run(ctx):
             cases.append((seed, N, ["sh"] * (W + 1), None, (2, 1, 2), W, W + 1))
             if not quick:
                 # wire fencing with a cap and several workers
-                mv = ["sh", "sh"] + ["wf"] * (W - 1)
+                mv = ["sh"] + ["wf"] * (W - 1) + ["sh"]   # orders are integers: an effective cap needs a sh top ensemble
                 for k in (2, 4, N - W):
-                    cases.append((seed, N, mv, len(mv) - 0.5, (k,), W, len(mv)))
+                    cases.append((seed, N, mv, len(mv) - 1.25, (k,), W, len(mv)))
     results = H.run_many(case_run, cases, jobs=14, timeout=900)
     for c in cases[:3]:
         ctx.sample({"seed": c[0], "steps": c[1], "moves": c[2], "cap": c[3], "splits": c[4], "workers": c[5]})
